@@ -35,6 +35,8 @@ pub open spec fn ts_ok(ts: TerminalState) -> bool {
     &&& margins_safe(ts)
     &&& tabs_safe(ts)
     &&& ts.tab_stops.len() < 0x10_0000
+    // reachable-state fact: no emulation ever selects OriginMode::WithinMargins (the DECOM arm is commented out)
+    &&& ts.origin_mode is UpperLeftCorner
 }
 // the state invariant panic-freedom needs (C01); k bounds every size (k <= CAP)
 pub open spec fn buf_ok(b: Buffer, k: int) -> bool {
@@ -187,7 +189,7 @@ pub open spec fn buf_lines_only(a: Buffer, b: Buffer, li: int) -> bool {
 // ---- the inductive state invariant of a terminal session (C01) --------------------------------------------
 // k is a growth budget: every size and the cursor are at most k. One character grows k by at most 2.
 pub open spec fn term_inv(b: Buffer, c: Caret, k: int) -> bool {
-    buf_ok(b, k) && caret_ok(c, k) && k >= 0x10_0001
+    buf_ok(b, k) && caret_ok(c, k) && k >= 0x10_0001 && b.is_terminal_buffer
 }
 pub open spec fn term_step(b0: Buffer, c0: Caret, b1: Buffer, c1: Caret, g: int) -> bool {
     &&& b1.is_terminal_buffer == b0.is_terminal_buffer
